@@ -10,7 +10,7 @@ EXTENDS MC_Push
 Named(seq) == [k \in DOMAIN seq |-> M("m" \o ToString(k), seq[k][1], seq[k][2])]
 Singles == {<< <<a, b>> >> : a \in Reachable, b \in Behaviours} \cup {<< <<a, "200">> >> : a \in Unreachable \cup Unresolvable}
 Slowly == {<<"url", "hang">>, <<"physical", "slow-200">>}
-Rest == {<<"url", "200">>, <<"physical-headers", "500">>, <<"data-null", "200">>, <<"recv-null", "200">>, <<"refused", "200">>}
+Rest == {<<"url", "200">>, <<"physical-headers", "500">>, <<"data-null", "200">>, <<"recv-null", "200">>, <<"refused", "200">>, <<"url-absent", "200">>}
 Few == {<<"url", "200">>, <<"url", "404">>, <<"data-not-object", "200">>}
 Plans ==
   IF Size = 1
